@@ -19,6 +19,7 @@ func genC09(t *rapid.T) *Case {
 	p.CommaURLs = true
 	p.Inline = append(append([]wc{}, p.Inline...), wc{"joined", 2}, wc{"escaped", 3})
 	p.EscapedText = true
+	p.InlineBlocksInCells = true
 	mode := rapid.IntRange(0, 2).Draw(t, "c09mode")
 	if mode == 0 {
 		// word-count sub-domain: no title, no tables, no figures
